@@ -253,6 +253,11 @@ func (pConn *PFCPConn) Shutdown() {
 	for _, sess := range pConn.store.GetAllSessions() {
 		verifPoint("conn.shutdown.session", pConn.RemoteAddr().String(), sess.localSEID)
 		pConn.upf.SendMsgToUPF(upfMsgTypeDel, sess.PacketForwardingRules, PacketForwardingRules{})
+
+		if err := releaseAllocatedIPs(pConn.upf.ippool, &sess); err != nil {
+			logger.PfcpLog.Errorln("failed to release UE IP of session", sess.localSEID, err)
+		}
+
 		pConn.RemoveSession(sess)
 	}
 
